@@ -34,8 +34,10 @@ class P(Profile):
     user_ops = ()
     op_rate = 0.3
     steps_max = 60
-    warmups = (0, 20, 30, 45, 60)
-    startsecs = (0, 1, 6, 12)
+    warmups = (0, 15, 20, 25, 30, 45, 60)
+    startsecs = (1, 6, 12)
+    progs_max = 4
+    sequences = (1, 1, 1, 2, 0)
 
 
 class FaultContextMonitor:
